@@ -35,7 +35,7 @@ LIB_SOURCES = [
 # harness binary -> (source, variants, extra compile flags, extra sources from the repo)
 HARNESSES = {
     "h_flow":    ("harness/h_flow.cpp", ["asan", "fast", "ndebug"], "", []),
-    "h_dp":      ("harness/h_dp.cpp", ["asan", "fast"], "", []),
+    "h_dp":      ("harness/h_dp.cpp", ["asan", "fast"], "-fno-access-control", []),
     "h_global":  ("harness/h_global.cpp", ["asan", "fast", "ndebug", "tsan"], "", []),
     "h_hpwl":    ("harness/h_hpwl.cpp", ["asan", "fast"], "", []),
     "h_row":     ("harness/h_row.cpp", ["asan", "fast"], "", []),
